@@ -69,6 +69,10 @@ CHECKS = {
          "Sound static analysis of structural necessary conditions of reproducibility: the deterministic entry points reach no entropy source (their randomised siblings do - positive control), the supplied blinds/salt are exactly what DeterministicBlind/FixedBlind receive (element i with input i), no mutable package-level state is touched, and the state keeps its own serialized token input that contains no blind/salt parameter. Does not decide that unblinding cancels the blind nor agreement with the Rust vectors (arithmetic evaluation).",
          "Trusts go/ssa, VTA call graph, effects.go, this checker's term evaluator; std functions outside the sink list are deterministic.",
          "DESIGN.md §4 C11"),
+ "C14": ("reference agreement: syntax-tree comparison of the fork's functions with GOROOT crypto/internal/edwards25519{,/field} and crypto/ed25519 (alpha-renaming, reviewed helper equivalences); guard dominance and hash-input terms on SSA; constant comparison by value",
+         "Sound static analysis of structural necessary conditions: 77 functions of the arithmetic core, key generation and key derivation are syntactically the standard library's (modulo renaming), so they compute what it computes; constants agree by value; Verify accepts only behind the five RFC 8032 guards with the standard hash input; signing uses the standard hash inputs and output layout; the canonical-S test scans all 32 bytes against L-1. Does not decide the fork-specific ref10 scalar arithmetic (scMulAdd, scReduce, SetBytes, ModInverse) - the larger part of bit-compatibility - for which no reference exists in the sandbox.",
+         "Trusts go/parser, this checker's AST matcher, go/ssa, the GOROOT source of the default toolchain as reference, the reviewed divergent list (printed in evidence).",
+         "DESIGN.md §4 C14"),
 }
 PENDING_REASON = "check under construction in this round (see DESIGN.md §4 for the planned static rule); not claimed until the rule runs clean on the tree and fires on its seeded breakage"
 NOT_APPLICABLE = {}
